@@ -253,3 +253,29 @@ package syncx
 //@   prop C18
 //@   requires dc != nil
 //@   ensures [its-channel] result == dc.done
+
+// ---- ImmutableResource: fetched once and kept; after a failed fetch the next attempt comes only after the
+// refresh interval (a stored resource is never fetched again; the stored error is what callers see meanwhile) ----
+//@ func (*ImmutableResource).Get
+//@   prop C18
+//@   opaque maybeRefresh
+//@   requires ir != nil
+//@   ensures [stored-resource-returned-without-fetching] old(ir.resource) != nil ==> result0 == old(ir.resource) && result1 == nil && calls(maybeRefresh) == 0
+//@   ensures [absent-resource-goes-through-the-refresh-gate] old(ir.resource) == nil ==> calls(ir.maybeRefresh) == 1
+//@ func (*ImmutableResource).Get$1
+//@   prop C18
+//@   ensures [fetched-once-under-the-lock] calls(ir.fetch) == 1 && calls(on("lock", ir.lock)) == 1 && calls(on("unlock", ir.lock)) == 1 && before(ir.fetch, on("lock", ir.lock))
+//@   ensures [success-stored-and-error-cleared] ret(ir.fetch, 1) == nil ==> ir.resource == ret(ir.fetch, 0) && ir.err == nil
+//@   ensures [failure-remembered-resource-untouched] ret(ir.fetch, 1) != nil ==> ir.err == ret(ir.fetch, 1) && ir.resource == old(ir.resource)
+//@ func (*ImmutableResource).maybeRefresh
+//@   prop C18
+//@   opaque Load, Set
+//@   requires ir != nil && ir.lastTime != nil
+//@   let due = ret(ir.lastTime.Load) == 0 || ret(ir.lastTime.Load) + ir.refreshInterval < ret(timex.Now)
+//@   ensures [first-time-or-interval-elapsed] due ==> calls(execute) == 1 && calls(ir.lastTime.Set, ret(timex.Now)) == 1 && before(Set, execute)
+//@   ensures [too-early-nothing-runs] !due ==> calls(execute) == 0 && calls(Set) == 0
+//@ func WithRefreshIntervalOnFailure$1
+//@   prop C18
+//@   requires resource != nil
+//@   modifies resource.refreshInterval
+//@   ensures [this-interval] resource.refreshInterval == interval
